@@ -4,6 +4,7 @@ import ast
 from .. import q
 from ..cfg import build_cfg, guard_atoms, guards
 from ..prog import strip_cast, dotted
+from .common import exactly_for_class
 
 EXPLANATION = (
     'Static rules over Interpreter._queue_event / _select_event / execute_once / _compute_steps / _raise_event and '
@@ -297,23 +298,23 @@ def rules_insertion(run, P='C05'):
         run.fail(r, fi.short, 'insert call', 'queue.insert(position, (due, event)) not found', F)
         return
     ic = ins[0]
-    qv = strip_cast(ic.func.value)
-    run.anchor(isinstance(qv, ast.Name), r, 'insert receiver is a local queue variable')
-    qv = qv.id
-    for st, v in q.assigned_value(F, qv):
+    qx = strip_cast(ic.func.value)
+    run.anchor(isinstance(qx, (ast.Name, ast.IfExp)), r, 'insert receiver is a local queue variable or a conditional expression')
+    qv = q.unparse(qx)
+    choices = q.cases(F, qx)
+    for v, at in choices:
         v = strip_cast(v)
         fld = dotted(v)
-        at = guard_atoms(st)
         isint = [a for a in at if a[1].replace(' ', '') == 'isinstance(%s,InternalEvent)' % evp]
         if fld == 'self._internal_queue':
             run.check(any(a[0] == 'truthy' for a in isint) and len(at) == 1, r, fi.short, 'internal events -> internal queue',
-                      'the internal queue must be chosen exactly for InternalEvent instances', st)
+                      'the internal queue must be chosen exactly for InternalEvent instances', ic)
         elif fld == 'self._external_queue':
             run.check(any(a[0] == 'falsy' for a in isint) and len(at) == 1, r, fi.short, 'other events -> external queue',
-                      'the external queue must be chosen exactly for non-internal events', st)
+                      'the external queue must be chosen exactly for non-internal events', ic)
         else:
-            run.fail(r, fi.short, 'queue choice ' + q.unparse(st), 'unknown queue', st)
-    run.check(len(q.assigned_value(F, qv)) == 2, r, fi.short, 'two queue choices', 'expected one choice per event class', F)
+            run.fail(r, fi.short, 'queue choice ' + q.unparse(v)[:60], 'unknown queue', ic)
+    run.check(len(choices) == 2, r, fi.short, 'two queue choices', 'expected one choice per event class', F)
     # due time
     pos_a, item = (ic.args + [None, None])[:2]
     run.anchor(isinstance(item, ast.Tuple) and len(item.elts) == 2, r, 'inserted (due, event) tuple')
@@ -360,9 +361,18 @@ def rules_insertion(run, P='C05'):
         elif isinstance(seq, ast.Name):
             over = seq
             keyf = q.arg(b, None, 'key')
-        run.check(isinstance(over, ast.Name) and over.id == qv, r, fi.short, 'bisect over the receiving queue',
+        run.check(over is not None and q.unparse(over) == qv, r, fi.short, 'bisect over the receiving queue',
                   'bisect must search the same queue that receives the insert', b)
         needle = strip_cast(b.args[1]) if len(b.args) > 1 else None
+        kf0 = q.key_function(run, F, keyf) if keyf is not None else None
+        if kf0 is not None and isinstance(needle, ast.Call) and q.unparse(needle.func) == q.unparse(keyf) and len(needle.args) == 1 and not needle.keywords:
+            # needle = key(<the inserted item>): apply the key function to the item symbolically
+            itm = strip_cast(needle.args[0])
+            if isinstance(itm, ast.Tuple) and len(itm.elts) == 2 and q.unparse(itm) == q.unparse(item):
+                txt = q.unparse(kf0[1])
+                for i_, e_ in enumerate(itm.elts):
+                    txt = txt.replace('%s[%d]' % (kf0[0], i_), q.unparse(e_))
+                needle = ast.parse(txt, mode='eval').body
         first = needle.elts[0] if isinstance(needle, ast.Tuple) and needle.elts else needle
         run.check(first is not None and q.unparse(first) == due_text, r, fi.short, 'bisect needle leads with the due time',
                   'the search key must be led by the due time', b)
@@ -466,7 +476,7 @@ def rules_send(run, P='C05', rid='.6'):
     evp = q.param_names(R)[1]
     for c in qe:
         at = guard_atoms(c)
-        run.check(('truthy', 'isinstance(%s, InternalEvent)' % evp, '') in at and len(at) == 1, r, ri.short,
+        run.check(exactly_for_class(run, c, evp, 'InternalEvent'), r, ri.short,
                   'internal events are queued for the sender', 'queueing must happen exactly for InternalEvent instances', c)
         run.check(c.args and isinstance(c.args[0], ast.Name) and c.args[0].id == evp, r, ri.short,
                   'the sent event itself is queued', 'must queue the event', c)
